@@ -35,3 +35,12 @@ CLAIMS["C11"] = (
     "Found and repaired F-03, F-07, F-08, F-13, F-21.",
     "Trusted: line classifier; gcc's notion of valid C for the skeleton is assumed, not modelled (no C parser available offline). Not decided: C++ "
     "validity beyond guard pairing, user raw type names, per-program label numbering.")
+CLAIMS["C12"] = (
+    "template bisimulation modulo a representation map over enumerated emission paths; who-reads check on representation flags",
+    "Static, generator-level and relational: for each representation option, every pair of emission units (template paths / loop-body "
+    "alternatives) that agree on all other atoms must emit equal line sequences after the option's normalisation map (pointer mode, hook call "
+    "form, char/uint8_t, heap allocation events, header-only lines). Representation flags are confined to code generation (never parse/DFA "
+    "stages), header-only flags to header generators, zero-length support to the feed-entry test. Holds for all programs because it is a fact "
+    "about the templates; the range-collapse option (arithmetic over code points) is not decided.",
+    "Trusted: the normalisation maps in rules/c12.py (each rewrites only the construct the option is documented to change); flag resolution "
+    "invariants (implications/exclusions) used to discard impossible valuations are checked under C19.")
